@@ -1,13 +1,14 @@
 #!/bin/bash
 # mutant_matrix.sh [ids...] -- run each seeded change against the check of the property it targets (quick tier) and
 # append the outcome to seeded/RESULTS.tsv (id, property, check, tier, outcome, first violation class).
-cd /verif
+VROOT="$(cd "$(dirname "$(readlink -f "$0")")/.." && pwd)"  # the /verif copy this tool belongs to (a vp-run snapshot uses its own)
+cd "$VROOT"
 ids=${@:-$(ls seeded | grep -v RESULTS)}
 for id in $ids; do
   [ -f seeded/$id/patch.diff ] || continue
   prop=$(python3 -c "import json,sys;print(json.load(open('seeded/$id/meta.json')).get('property',''))" 2>/dev/null)
   [ -z "$prop" ] && prop=$(echo $id | sed 's/^own-//; s/-.*//; s/[a-z]$//')
-  line=$(tools/try_mutant.sh $id $prop quick 2>&1 | tail -1)
+  line=$("$VROOT"/tools/try_mutant.sh $id $prop quick 2>&1 | tail -1)
   outcome=$(echo "$line" | awk '{print $1}')
   cls=$(echo "$line" | grep -o 'class=[^ ]*' | head -1)
   echo -e "$id\t$prop\t$prop\tquick\t$outcome\t$cls\t$(git -C /repo rev-parse --short HEAD)" | tee -a seeded/RESULTS.tsv
